@@ -8,7 +8,7 @@
     unguarded classes (no player ever exhausted, the sentinel is not less than any key handed in); they are
     vacuous for the guarded classes.  [ik <= 2^30]: Source = uint32_t arithmetic does not wrap. *)
 From Coq Require Import List NArith.
-From TLXV Require Import Common.Order C09.LoserTree C09.Spec C09.Winner C09.Final C09.UnguardedGeneral.
+From TLXV Require Import Common.Order C09.LoserTree C09.Spec C09.Winner C09.Final C09.UnguardedGeneral C09.BuildOrder C09.RegOrder.
 Import ListNotations.
 Local Open Scope N_scope.
 
@@ -109,3 +109,43 @@ Theorem C09_unguarded_any_keys_run_passes_checker :
     check_trace_g ltb v sentinel seqs (lt_run_g ltb dkey v sentinel seqs) = true.
 Proof. exact (@run_g_checks). Qed.
 Print Assumptions C09_unguarded_any_keys_run_passes_checker.
+
+(** * The players may be registered in any order.  insert_start takes the player index as an argument;
+    [lt_build_order heads order] calls it for the indices listed in [order], in that order ([order_ok]: every player
+    occurs, nothing else does - descending, shuffled, repeated registrations).  init() then establishes the same
+    invariants as for the ascending order, so the theorems above about delete_min_insert and min_source() apply
+    unchanged.  (The order is observable in the code: the guarded copy class floods all key copies on the FIRST
+    insert_start call, whichever player it registers.) *)
+Theorem C09_init_any_registration_order :
+  forall (A : Type) (ltb : A -> A -> bool) (dkey sentinel : A), SWO ltb ->
+  forall (v : variant) (heads : list (option A)) (order : list N),
+    1 <= N.of_nat (length heads) <= 2 ^ 30 -> pl_ok ltb sentinel v heads -> order_ok heads order ->
+    TInv ltb dkey sentinel v (lt_build_order ltb dkey v sentinel heads order) heads.
+Proof. exact (@build_order_TInv). Qed.
+Print Assumptions C09_init_any_registration_order.
+
+Theorem C09_unguarded_any_keys_init_any_registration_order :
+  forall (A : Type) (ltb : A -> A -> bool) (dkey sentinel : A) (v : variant) (heads : list (option A)) (order : list N),
+    v_guarded v = false ->
+    1 <= N.of_nat (length heads) <= 2 ^ 30 -> all_some heads -> order_ok heads order ->
+    UInv ltb dkey sentinel v (lt_build_order ltb dkey v sentinel heads order) heads.
+Proof. exact (@ubuild_order_UInv). Qed.
+Print Assumptions C09_unguarded_any_keys_init_any_registration_order.
+
+(** the model's runs pass the checkers for every registration order *)
+Theorem C09_model_run_any_registration_order_passes_checker :
+  forall (A : Type) (ltb : A -> A -> bool) (dkey sentinel : A), SWO ltb ->
+  forall (v : variant) (seqs : list (list A)) (order : list N),
+    1 <= N.of_nat (length seqs) <= 2 ^ 30 -> seqs_ok ltb sentinel v seqs -> order_ok (heads seqs) order ->
+    check_trace ltb v seqs (lt_run_order ltb dkey v sentinel order seqs) = true.
+Proof. exact (@run_order_checks). Qed.
+Print Assumptions C09_model_run_any_registration_order_passes_checker.
+
+Theorem C09_unguarded_any_keys_run_any_registration_order_passes_checker :
+  forall (A : Type) (ltb : A -> A -> bool) (dkey sentinel : A), SWO ltb ->
+  forall (v : variant) (seqs : list (list A)) (order : list N), v_guarded v = false ->
+    1 <= N.of_nat (length seqs) <= 2 ^ 30 -> (forall j sq, nthN seqs j = Some sq -> sq <> []) ->
+    order_ok (heads seqs) order ->
+    check_trace_g ltb v sentinel seqs (lt_run_g_order ltb dkey v sentinel order seqs) = true.
+Proof. exact (@run_g_order_checks). Qed.
+Print Assumptions C09_unguarded_any_keys_run_any_registration_order_passes_checker.
